@@ -29,6 +29,10 @@ type KCase struct {
 	Size    int `json:"size"`     // padding bytes per event
 	KillAt  int `json:"kill_at"`  // SIGKILL after this many acknowledgements (0 = right after start)
 	DelayUs int `json:"delay_us"` // extra delay before the kill
+	// Saver: one more goroutine saves the positions 1, 2, 3, ... of a
+	// subscription while the writers append, reporting every acknowledged
+	// SaveOffset ("SACK <n>").
+	Saver bool `json:"saver,omitempty"`
 }
 
 type kScript struct {
@@ -68,6 +72,23 @@ func concChildMain(sc kScript) {
 			}
 		}(w)
 	}
+	if sc.Saver {
+		wg.Add(1)
+		go func() {
+			defer wg.Done()
+			for n := 1; n <= sc.Writers*sc.Each; n++ {
+				err := st.SaveOffset(ctx, "sub", eventbus.Offset(strconv.Itoa(n)))
+				for tries := 0; err != nil && tries < 5000 && strings.Contains(err.Error(), "locked"); tries++ {
+					time.Sleep(50 * time.Microsecond)
+					err = st.SaveOffset(ctx, "sub", eventbus.Offset(strconv.Itoa(n)))
+				}
+				if err != nil {
+					return // not acknowledged; stop saving
+				}
+				os.Stdout.WriteString(fmt.Sprintf("SACK %d\n", n))
+			}
+		}()
+	}
 	wg.Wait()
 	fmt.Println("DONE")
 	time.Sleep(time.Hour)
@@ -93,6 +114,7 @@ func RunKillConc(c *KCase) *vkit.Outcome {
 		return o
 	}
 	acked := map[int]string{} // id -> offset
+	lastSack, nSacks := 0, 0
 	killed := false
 	kill := func() {
 		if c.DelayUs > 0 {
@@ -117,7 +139,15 @@ func RunKillConc(c *KCase) *vkit.Outcome {
 				if len(f) == 3 {
 					id, _ := strconv.Atoi(f[1])
 					acked[id] = strings.Trim(f[2], "[]")
-					if !killed && len(acked) >= c.KillAt {
+					if !killed && len(acked)+nSacks >= c.KillAt {
+						kill()
+					}
+				}
+			case "SACK":
+				if len(f) == 2 {
+					lastSack, _ = strconv.Atoi(f[1])
+					nSacks++
+					if !killed && len(acked)+nSacks >= c.KillAt {
 						kill()
 					}
 				}
@@ -197,6 +227,28 @@ func RunKillConc(c *KCase) *vkit.Outcome {
 			st.Close()
 			o.Failf("", "%s: the reopened log holds %d events that were never acknowledged; at most one append per writer (%d) can have been in flight", desc, extra, c.Writers)
 			return o
+		}
+		if c.Saver && reopen == 0 {
+			got, lerr := st.LoadOffset(context.Background(), "sub")
+			if lerr != nil {
+				st.Close()
+				o.Failf("", "%s: LoadOffset after reopening failed: %v", desc, lerr)
+				return o
+			}
+			g := 0
+			if got != "" && got != eventbus.OffsetOldest {
+				g, _ = strconv.Atoi(string(got))
+			}
+			// the saver works through 1, 2, 3, ...: the stored position is the
+			// last acknowledged one, or the next (saved, acknowledgement not yet seen)
+			if g != lastSack && g != lastSack+1 {
+				st.Close()
+				o.Failf("", "%s: SaveOffset acknowledged position %d for subscription \"sub\" (saved in order while %d goroutines appended); after the kill and a reopen LoadOffset returns %q", desc, lastSack, c.Writers, got)
+				return o
+			}
+			if lastSack > 0 {
+				o.Class("acknowledged_offset_saves_concurrent_with_appends")
+			}
 		}
 		// a new append gets an offset above everything acknowledged or stored
 		off, err := st.Append(context.Background(), &eventbus.Event{Type: "c14k", Data: []byte(fmt.Sprintf(`{"id":%d}`, 900000+reopen)), Timestamp: time.Unix(1, 0)})
